@@ -39,8 +39,8 @@ fn check(acc: &mut Acc, reg: &Registry, s: &dyn Subject, case: &Case, src: Sourc
 }
 
 pub fn run(ctx: &Ctx, reg: &Registry) -> i32 {
-    let n_cases: u64 = ctx.tier.pick(60, 2500);
-    let n_base: u64 = ctx.tier.pick(3, 40);
+    let n_cases: u64 = ctx.tier.pick(400, 5000);
+    let n_base: u64 = ctx.tier.pick(4, 30);
     let acc = ctx.par(|shard, n| {
         let mut acc = Acc::new();
         for (si, s) in reg.subjects.iter().enumerate() {
